@@ -56,6 +56,7 @@ extern void simLogOff(void);
 #define MAXBLK   (1 << 17)
 #define XM       0x5A5A5A5A5A5A5A5AUL
 #define NOPTRCODE 31
+#define LIVE_CAP (48UL << 20)
 
 enum { K_EXACT = 'e', K_INTERIOR = 'i', K_HEAP = 'h', K_DROPPED = 'd' };
 
@@ -82,7 +83,7 @@ static long dropped[MAXBLK]; static long nDropped;
 void *roots[MAXBLK];
 static long freeRoot[MAXBLK]; static long nFreeRoot; static long nRoots;
 
-static unsigned long seed0 = 1, step, checkEvery = 1;
+static unsigned long seed0 = 1, step, checkEvery = 1, lastFull, liveBytes;
 static unsigned long gcEpoch, natSeen;
 static unsigned long oomSeen, cantBuild, freeBad, usedNonalloc;
 static unsigned long nAllocOk, nAllocNull, nFreeOp, nResize, nGcOp, nAuditOp, nFullCheck, maxLive, nRefusedAllocs;
@@ -208,11 +209,25 @@ static int isRooted(struct blk *b)
 	return 0;	/* cycle without an outside root */
 }
 
-static void liveAdd(long ix) { B[ix].livePos = nLive; live[nLive++] = ix; if ((unsigned long) nLive > maxLive) maxLive = (unsigned long) nLive; }
+static void liveAdd(long ix) { B[ix].livePos = nLive; live[nLive++] = ix; liveBytes += B[ix].req; if ((unsigned long) nLive > maxLive) maxLive = (unsigned long) nLive; }
 static void liveDel(long ix)
 {
 	long pos = B[ix].livePos, last = live[nLive - 1];
-	live[pos] = last; B[last].livePos = pos; nLive--; B[ix].livePos = -1;
+	live[pos] = last; B[last].livePos = pos; nLive--; B[ix].livePos = -1; liveBytes -= B[ix].req;
+}
+
+/* Undo "holder's first word points to its child": the owner overwrites the
+ * word with the holder's stream again (it still owns the holder).  Returns the
+ * former child or -1. */
+static long unlinkChild(long holder)
+{
+	struct blk *h = &B[holder];
+	long c = h->child;
+	if (c < 0) return -1;
+	h->child = -1;
+	B[c].holder = -1;
+	fill(addrOf(h), h->req < 8 ? h->req : 8, h->stream, 0);
+	return c;
 }
 
 /* The block loses its owner: it and, transitively, what only it kept
@@ -220,18 +235,15 @@ static void liveDel(long ix)
 static void dropBlock(long ix)
 {
 	struct blk *b = &B[ix];
+	long c;
 	rootClear(b);
-	if (b->holder >= 0) { B[b->holder].child = -1; b->holder = -1; }
+	if (b->holder >= 0) unlinkChild(b->holder);
+	c = unlinkChild(ix);
 	b->kind = K_DROPPED;
 	b->dropEpoch = gcEpoch;
 	liveDel(ix);
 	dropped[nDropped++] = ix;
-	if (b->child >= 0) {
-		long c = b->child;
-		b->child = -1;
-		B[c].holder = -1;
-		if (B[c].livePos >= 0 && B[c].kind == K_HEAP) dropBlock(c);
-	}
+	if (c >= 0 && B[c].livePos >= 0 && B[c].kind == K_HEAP) dropBlock(c);
 }
 
 /* Check one live block: header facts and content. */
@@ -318,6 +330,7 @@ static long opAlloc(unsigned long bytes, unsigned code, int kind)
 	struct blk *b;
 	if (nB >= MAXBLK - 1) return -1;
 	if (bytes == 0) bytes = 1;
+	if (liveBytes + bytes > LIVE_CAP) return -1;	/* keep the cost of collections and checks bounded */
 	p = (char *) stoAlloc(code, bytes);
 	noteNatural();
 	if (!p) {
@@ -351,13 +364,12 @@ static void opFree(long ix)
 	struct blk *b = &B[ix];
 	char *a = addrOf(b);
 	unsigned long fb = freeBad;
+	long c;
 	checkBlock(ix, "before free");
 	rootClear(b);
-	if (b->holder >= 0) { B[b->holder].child = -1; *(unsigned long *) addrOf(&B[b->holder]) = streamWord(B[b->holder].stream, 0); b->holder = -1; }
-	if (b->child >= 0) {
-		long c = b->child; b->child = -1; B[c].holder = -1;
-		if (B[c].livePos >= 0 && B[c].kind == K_HEAP) dropBlock(c);
-	}
+	if (b->holder >= 0) unlinkChild(b->holder);
+	c = unlinkChild(ix);
+	if (c >= 0 && B[c].livePos >= 0 && B[c].kind == K_HEAP) dropBlock(c);
 	liveDel(ix);
 	stoFree(a);
 	noteNatural();
@@ -376,6 +388,10 @@ static void opResize(long ix, unsigned long bytes)
 	 * handler may return is not part of the property, so no resize is issued
 	 * while a refusal is pending. */
 	if (simSbrkRefusePending()) return;
+	if (b->child >= 0 && bytes < 8) {
+		long c = unlinkChild(ix);
+		if (c >= 0 && B[c].livePos >= 0 && B[c].kind == K_HEAP) dropBlock(c);
+	}
 	checkBlock(ix, "before resize");
 	np = (char *) stoResize(a, bytes);
 	noteNatural();
@@ -383,18 +399,14 @@ static void opResize(long ix, unsigned long bytes)
 	if (!np) verdict("null", "stoResize(%lu) returned null with no refusal pending", bytes);
 	checkNewBlock(np, bytes, "stoResize");
 	from = b->child >= 0 ? 8 : 0;
-	if (b->child >= 0 && (keep < 8 || *(unsigned long *) np != (B[b->child].ax ^ XM))) {
-		if (keep >= 8) verdict("content", "stoResize lost the link word of block #%ld", ix);
-	}
+	if (b->child >= 0 && *(unsigned long *) np != (B[b->child].ax ^ XM))
+		verdict("content", "stoResize lost the link word of block #%ld", ix);
 	bad = cmpStream(np, keep, b->stream, from < keep ? from : keep);
 	if (bad != keep) verdict("content", "stoResize(%lu -> %lu) did not preserve the common prefix of block #%ld (offset %lu)", b->req, bytes, ix, bad);
 	if (stoCode(np) != b->code) verdict("code", "stoResize changed the code of block #%ld", ix);
 	b->ax = (unsigned long) np ^ XM;
+	liveBytes += bytes; liveBytes -= b->req;
 	b->req = bytes; b->act = stoSize(np);
-	if (b->child >= 0 && bytes < 8) {
-		long c = b->child; b->child = -1; B[c].holder = -1;
-		if (B[c].livePos >= 0 && B[c].kind == K_HEAP) dropBlock(c);
-	}
 	fill(np, bytes, b->stream, b->child >= 0 ? 8 : 0);
 	rootSet(b);
 	if (b->holder >= 0) *(unsigned long *) addrOf(&B[b->holder]) = (unsigned long) np;
@@ -418,8 +430,7 @@ static void opLink(long ia, long ib)
 	b->kind = K_HEAP;
 	if (!isRooted(b)) {	/* the holder does not keep it alive (pointer-free code or itself unrooted) */
 		/* keep it simple: such a block is as good as dropped */
-		a->child = -1; b->holder = -1;
-		*(unsigned long *) addrOf(a) = streamWord(a->stream, 0);
+		unlinkChild(ia);
 		dropBlock(ib);
 	}
 }
@@ -537,13 +548,18 @@ int main(int argc, char **argv)
 			long n, i;
 			sscanf(line, "p %lu %7s %lu", &a, k, &c);
 			if (a == 0) a = 8;
-			n = probeFit(a, 20000) - (long) c;
+			n = probeFit(a, 4000) - (long) c;
 			for (i = 0; i < n && nB < MAXBLK - 2; i++) opAlloc(a, 0, k[0] ? k[0] : K_DROPPED);
 			break;
 		}
 		default: break;
 		}
-		if (step % checkEvery == 0) fullCheck("periodic");
+		{
+			/* full checks cost O(live bytes): stretch the interval as the heap grows
+			 * (a pure function of the history, so still deterministic) */
+			unsigned long iv = checkEvery * (1 + (unsigned long) (nLive + nDropped) / 400) * (1 + liveBytes / (2UL << 20));
+			if (step - lastFull >= iv) { fullCheck("periodic"); lastFull = step; }
+		}
 	}
 	fclose(f);
 	step++;
